@@ -160,6 +160,9 @@ func (fx *FuncExec) evalCall(st *State, call *ast.CallExpr) []Term {
 		if rs, ok := fx.dispatchCall(st, call, sig, *selfFn, args); ok {
 			return rs
 		}
+		if rs, ok := fx.pinnedDispatch(st, call, sig, *selfFn, args); ok {
+			return rs
+		}
 	}
 	if c == nil {
 		fx.uncontr[key] = true
@@ -869,4 +872,44 @@ func sortedKeysSS(m map[string][]string) []string {
 	}
 	sort.Strings(ks)
 	return ks
+}
+
+
+// pinnedDispatch: the contract names the closure a func-valued variable holds
+// (dispatch <var> "<literal key>"). The call is then a call of that literal:
+// an obligation checks that the value's code really is that literal's, and the
+// literal's contract is applied with its captured variables read through the
+// cap_ functions of the value.
+func (fx *FuncExec) pinnedDispatch(st *State, call *ast.CallExpr, sig *types.Signature, self Term, args []Term) ([]Term, bool) {
+	if fx.contract == nil || fx.contract.Dispatch == nil {
+		return nil, false
+	}
+	id, ok := call.Fun.(*ast.Ident)
+	if !ok {
+		return nil, false
+	}
+	lk, ok := fx.contract.Dispatch[id.Name]
+	if !ok {
+		return nil, false
+	}
+	li := fx.ctx.funcs[lk]
+	c := fx.ctx.spec.Contracts[lk]
+	if li == nil || li.Lit == nil || c == nil {
+		fx.uncontr["dispatch-target-without-contract:"+lk] = true
+		return nil, false
+	}
+	c.Used = true
+	fx.reg.declFun("fn_code", "(declare-fun fn_code (Fn) Int)")
+	fx.oblige(st, "panic/nilfunc", "", not(eq(self.S, "fn_nil")), "called function value is non-nil: "+id.Name, call.Pos())
+	fx.oblige(st, "dispatch", id.Name, eq("(fn_code "+self.S+")", fmt.Sprint(fx.ctx.litCode(lk))), id.Name+" is the closure "+lk, call.Pos())
+	caps := map[string]Term{}
+	lfx := &FuncExec{ctx: fx.ctx, reg: fx.reg, pkg: li.Pkg, info: li.Pkg.TypesInfo, fi: li}
+	for _, v := range lfx.freeVars(li.Lit) {
+		uf := "cap_" + sanitize(lk) + "_" + v.Name()
+		vs := fx.reg.SortOf(v.Type())
+		fx.reg.declFun(uf, fmt.Sprintf("(declare-fun %s (Fn) %s)", uf, vs))
+		caps[v.Name()] = Term{S: "(" + uf + " " + self.S + ")", Sort: vs, T: v.Type()}
+	}
+	selfCopy := self
+	return fx.applyContract(st, c, lk, li.Pkg.Types, li.Sig, nil, &selfCopy, args, call.Pos(), caps), true
 }
